@@ -5,6 +5,7 @@ are regenerated from /repo on every run by translate/gen_registry, gen_proto, ge
 Translator validation: ast registry == live dict; API-surface sweep in SimNet (observed sent /
 subscribed types must be a subset of the translated ones and respect the direction options);
 every registered id sent through process_packet selects the registered class."""
+from vlib.privnames import priv, has_priv
 import asyncio
 import inspect
 import json
@@ -76,8 +77,8 @@ async def sweep_method(loop, net, mname, variant):
     cli, tr = await simnet.connected_client(loop, net, api=(1, 10 if variant else 0))
     variant_cb = variant
     loop.set_exception_handler(lambda l, ctx: None)      # a failing application handler is reported to the loop: not what is observed here
-    conn = cli._connection
-    before_handlers = {k: set(v) for k, v in conn._message_handlers.items()}
+    conn = priv(cli, "_connection")
+    before_handlers = {k: set(v) for k, v in priv(conn, "_message_handlers").items()}
     n0 = len(tr.writes)
     meth = getattr(cli, mname)
     sig = inspect.signature(meth)
@@ -91,7 +92,7 @@ async def sweep_method(loop, net, mname, variant):
     subscribed = set()
 
     def note_handlers():
-        for k, v in conn._message_handlers.items():
+        for k, v in priv(conn, "_message_handlers").items():
             if v - before_handlers.get(k, set()):
                 subscribed.add(k.__name__)
 
@@ -213,10 +214,10 @@ def run(rep, tier, seed):
         params = ConnectionParams(addresses=["x"], port=1, password=None, client_info="x", keepalive=20.0,
                                   zeroconf_manager=None, noise_psk=None, expected_name=None)
         conn = APIConnection(params, None, False, None)
-        conn._set_connection_state(ConnectionState.CONNECTED)
+        priv(conn, "_set_connection_state")(ConnectionState.CONNECTED)
         seen = []
         for cls in set(MESSAGE_TYPE_TO_PROTO.values()):
-            conn._add_message_callback_without_remove(lambda m, seen=seen: seen.append(type(m).DESCRIPTOR.name), (cls,))
+            conn.add_message_callback(lambda m, seen=seen: seen.append(type(m).DESCRIPTOR.name), (cls,))
         try:
             conn.process_packet(i, b"")
         except Exception as e:  # noqa
@@ -248,10 +249,10 @@ def run(rep, tier, seed):
         params = ConnectionParams(addresses=["x"], port=1, password=None, client_info="x", keepalive=20.0,
                                   zeroconf_manager=None, noise_psk=None, expected_name=None)
         conn = APIConnection(params, None, False, None)
-        conn._set_connection_state(ConnectionState.CONNECTED)
+        priv(conn, "_set_connection_state")(ConnectionState.CONNECTED)
         seen = []
         for cls in set(MESSAGE_TYPE_TO_PROTO.values()):
-            conn._add_message_callback_without_remove(lambda m, seen=seen: seen.append(type(m).DESCRIPTOR.name), (cls,))
+            conn.add_message_callback(lambda m, seen=seen: seen.append(type(m).DESCRIPTOR.name), (cls,))
         for i in hist:
             try:
                 conn.process_packet(i, b"")
